@@ -77,6 +77,11 @@ type world struct {
 	mxs         []*mxSpec
 	msgs        []*rmsg
 	stsFetches  int
+	// per destination domain ("dest" = dest.example, "idn" = the
+	// internationalized domain served by the same hosts)
+	stsModeD  map[string]string
+	stsDelayD map[string]time.Duration // how long the policy fetch takes
+	dnsFailD  map[string]bool          // MX lookup fails temporarily
 
 	// DNSSEC dimension
 	useDANE   bool
@@ -108,7 +113,24 @@ func (w *world) gen() {
 	w.relaxed = s.T.Choose(st, 2) == 1
 	w.stsMode = []string{"none", "testing", "enforce", "enforce", "error"}[s.T.Choose(st, 5)]
 	w.destLimit = []int{0, 1, 2}[s.T.Choose(st, 3)]
-	w.dnsTempFail = s.T.Choose(st, 12) == 0
+	w.dnsTempFail = s.T.Choose(st, 8) == 0
+	w.stsModeD = map[string]string{"dest": w.stsMode, "idn": w.stsMode}
+	if s.T.Choose(st, 3) == 2 {
+		w.stsModeD["idn"] = []string{"none", "testing", "enforce", "error"}[s.T.Choose(st, 4)]
+	}
+	w.dnsFailD = map[string]bool{}
+	if w.dnsTempFail {
+		switch s.T.Choose(st, 3) {
+		case 0:
+			w.dnsFailD["dest"], w.dnsFailD["idn"] = true, true
+		case 1:
+			w.dnsFailD["dest"] = true
+		case 2:
+			w.dnsFailD["idn"] = true
+		}
+	}
+	delays := []time.Duration{0, 0, 0, 0, 2 * time.Second, 20 * time.Second, 400 * time.Second}
+	w.stsDelayD = map[string]time.Duration{"dest": delays[s.T.Choose(st, len(delays))], "idn": delays[s.T.Choose(st, len(delays))]}
 	nmx := 1 + s.T.Choose(st, 2)
 	for i := 0; i < nmx; i++ {
 		host := fmt.Sprintf("mx%d.dest.example", i+1)
@@ -212,20 +234,36 @@ func (w *world) build() error {
 	if err := w.rt.Init(config.NewMap(nil, config.Node{Children: cfg})); err != nil {
 		return err
 	}
-	zone := mockdns.Zone{}
-	for _, m := range w.mxs {
-		zone.MX = append(zone.MX, net.MX{Host: m.host + ".", Pref: m.pref})
-	}
-	if w.dnsTempFail {
-		zone.Err = &net.DNSError{Err: "scripted SERVFAIL", Name: destDomain, IsTemporary: true}
-		w.s.Stat("fault_dns_mx_tempfail")
+	mkZone := func(dk string) mockdns.Zone {
+		zone := mockdns.Zone{}
+		for _, m := range w.mxs {
+			zone.MX = append(zone.MX, net.MX{Host: m.host + ".", Pref: m.pref})
+		}
+		if w.dnsFailD[dk] {
+			zone.Err = &net.DNSError{Err: "scripted SERVFAIL", Name: destDomain, IsTemporary: true}
+			w.s.Stat("fault_dns_mx_tempfail")
+		}
+		return zone
 	}
 	// a second, internationalized domain served by the same MX hosts
-	res := &mockdns.Resolver{Zones: map[string]mockdns.Zone{destDomain + ".": zone, "тест.example.": zone, "xn--e1aybc.example.": zone}}
+	res := &mockdns.Resolver{Zones: map[string]mockdns.Zone{destDomain + ".": mkZone("dest"), "тест.example.": mkZone("idn"), "xn--e1aybc.example.": mkZone("idn")}}
 	stsGet := func(ctx context.Context, domain string) (*mtasts.Policy, error) {
 		simrt.Point("sts:get", domain)
 		w.stsFetches++
-		switch w.stsMode {
+		dk := domKey(domain)
+		if d := w.stsDelayD[dk]; d > 0 {
+			// a slow policy host; like the real fetch, gives up when cancelled
+			w.s.Stat("fault_sts_fetch_slow")
+			t := time.NewTimer(d)
+			select {
+			case <-t.C:
+			case <-ctx.Done():
+				t.Stop()
+				return nil, ctx.Err()
+			}
+			simrt.Yield("sts:fetched")
+		}
+		switch w.stsModeD[dk] {
 		case "none":
 			return nil, mtasts.ErrNoPolicy
 		case "error":
@@ -233,7 +271,7 @@ func (w *world) build() error {
 			return nil, errors.New("scripted MTA-STS fetch failure")
 		}
 		mode := mtasts.ModeTesting
-		if w.stsMode == "enforce" {
+		if w.stsModeD[dk] == "enforce" {
 			mode = mtasts.ModeEnforce
 		}
 		return &mtasts.Policy{Mode: mode, MaxAge: 86400, MX: w.stsMX}, nil
@@ -312,6 +350,22 @@ func (w *world) dnsExchange(ctx context.Context, q *dns.Msg, server string) (*dn
 		}
 	}
 	return r, nil
+}
+
+// domKey maps a domain as maddy spells it to "dest" or "idn".
+func domKey(domain string) string {
+	d := strings.TrimSuffix(strings.ToLower(domain), ".")
+	if d == destDomain {
+		return "dest"
+	}
+	return "idn"
+}
+
+func rcptDomKey(rcpt string) string {
+	if i := strings.LastIndex(rcpt, "@"); i >= 0 {
+		return domKey(rcpt[i+1:])
+	}
+	return "dest"
 }
 
 func (w *world) stsMatches(host string) bool {
@@ -396,6 +450,7 @@ func Run(s *simrt.Sim, a *harness.Args, r *harness.Result) {
 	s.PreemptNum, s.PreemptDen = 1, 8
 	remote.VerifSetPort("25")
 	w.gen()
+	s.Logf("scenario: %s", w.shape())
 	var berr error
 	built := false
 	s.Spawn("boot", nil, func() {
@@ -488,7 +543,7 @@ func Run(s *simrt.Sim, a *harness.Args, r *harness.Result) {
 func (w *world) shape() string {
 	var sb strings.Builder
 	fmt.Fprintf(&sb, "dane=%v dnssec=%v ext=%v lo=%v ad=%v ", w.useDANE, w.useDNSSEC, w.ext, w.loopback, w.zoneAD)
-	fmt.Fprintf(&sb, "sts=%v/%s/%v local=%v/%s/%s ovr=%v relax=%v lim=%d dnsfail=%v|", w.useSTS, w.stsMode, w.stsMX, w.useLocal, w.minTLS, w.minMX, w.override, w.relaxed, w.destLimit, w.dnsTempFail)
+	fmt.Fprintf(&sb, "sts=%v/%s/%v local=%v/%s/%s ovr=%v relax=%v lim=%d dnsfail=%v stsidn=%s stsdelay=%v/%v|", w.useSTS, w.stsMode, w.stsMX, w.useLocal, w.minTLS, w.minMX, w.override, w.relaxed, w.destLimit, w.dnsFailD, w.stsModeD["idn"], w.stsDelayD["dest"], w.stsDelayD["idn"])
 	for _, m := range w.mxs {
 		p := m.mx.Plan
 		fmt.Fprintf(&sb, "[%s down=%v tls=%v/%v cert=%v rtls=%v tlsa=%s]", m.host, m.down, p.StartTLS, p.TLSFails, p.Cert, p.RequireTLS, m.tlsa)
@@ -535,7 +590,11 @@ func (w *world) oracleC05() {
 				daneMatch = tx.TLS && tx.Cert == actors.CertValid
 			}
 			certOK := tx.TLS && (tx.Cert == actors.CertValid || (daneInForce && daneMatch))
-			stsAvail := w.useSTS && (w.stsMode == "testing" || w.stsMode == "enforce")
+			stsMode := w.stsModeD["dest"]
+			if len(tx.Rcpts) > 0 {
+				stsMode = w.stsModeD[rcptDomKey(tx.Rcpts[0])]
+			}
+			stsAvail := w.useSTS && (stsMode == "testing" || stsMode == "enforce")
 			mxMatched := (stsAvail && w.stsMatches(mx.host)) || (w.useDNSSEC && adTrusted)
 			fail := func(req, why string) {
 				s.Violate("C05/policy-unsatisfied/"+req+"/"+reuse, "message %s (requiretls=%v tls-required-no=%v) was transmitted to %s over connection #%d (transaction %d on it, TLS=%v, certificate %v, TLSA %s, DNSSEC trusted=%v): %s", m.id, m.requireTLS, m.tlsOverride, mx.host, tx.ConnID, tx.ConnTxN, tx.TLS, tx.Cert, mx.tlsa, adTrusted, why)
@@ -557,7 +616,7 @@ func (w *world) oracleC05() {
 				}
 			}
 			if !policiesOff {
-				if w.useSTS && w.stsMode == "enforce" {
+				if w.useSTS && stsMode == "enforce" {
 					if !w.stsMatches(mx.host) {
 						fail("sts-mx", fmt.Sprintf("the domain's MTA-STS policy is in enforce mode and lists %v", w.stsMX))
 					}
@@ -602,7 +661,7 @@ func (w *world) oracleC05() {
 	if w.dnsTempFail {
 		for _, m := range w.msgs {
 			for r, err := range m.rcptErr {
-				if m.quarantine {
+				if m.quarantine || !w.dnsFailD[rcptDomKey(r)] {
 					continue
 				}
 				if !exterrors.IsTemporary(err) {
